@@ -4,8 +4,11 @@ package apk
 
 import (
 	"bytes"
+	"crypto"
 	"encoding/binary"
 	"os"
+
+	"github.com/sassoftware/relic/v8/lib/zipslicer"
 )
 
 // one stored member, `between` bytes, then the directory and end record
@@ -98,3 +101,58 @@ func VH_C05_ApkSigningBlockLayout() {
 }
 
 func VH_C01_ApkSigningBlockFound() { VH_C05_ApkSigningBlockLayout() }
+
+// H05.apk-digest: the APK Signature Scheme v2 content digest relic computes
+// from the upload stream equals the digest written out here from the scheme's
+// description - chunk digests of (1) the zip entries, (3) the central
+// directory and (4) the end-of-directory record whose directory offset points
+// at where the signing block starts, then the top-level digest over the
+// count and the chunk digests - for an unsigned archive and for one that
+// already carries a signing block (re-signing). Block size scaled to 4.
+func VH_C05_ApkDigestReference() {
+	vhMaxLen(4096)
+	vhLoopBound(1100)
+	vhAssert(merkleBlock == 4, "block-constant-scaled")
+	var old []byte
+	if vhBool("already-signed") {
+		old = makeSigBlock(vhBytes("old-signers", 2))
+	}
+	file := vhApkZip(old)
+	p := vhFSPath("in.apk")
+	vhFSPut(p, file)
+	f, err := os.Open(p)
+	if err != nil {
+		return
+	}
+	var upload bytes.Buffer
+	vhAssert(zipslicer.ZipToTar(f, &upload) == nil, "transform-succeeds")
+	d, err := digestApkStream(&upload, crypto.SHA256)
+	vhAssert(err == nil, "stream-digests")
+	if err != nil {
+		return
+	}
+	// reference
+	const memberEnd = 30 + 1 + 1 // local header, name "a", one byte of data
+	cdStart := memberEnd + len(old)
+	eocdPos := len(file) - 22
+	contents := file[:memberEnd]
+	cd := file[cdStart:eocdPos]
+	eocd := append([]byte{}, file[eocdPos:]...)
+	binary.LittleEndian.PutUint32(eocd[16:], uint32(memberEnd)) // directory offset := start of the signing block
+	var all []byte
+	var count uint32
+	for _, section := range [][]byte{contents, cd, eocd} {
+		ds, n := vhRefChunks(section, 4)
+		all = append(all, ds...)
+		count += n
+	}
+	top := crypto.SHA256.New()
+	var pref [5]byte
+	pref[0] = 0x5a
+	binary.LittleEndian.PutUint32(pref[1:], count)
+	top.Write(pref[:])
+	top.Write(all)
+	vhAssert(bytes.Equal(d.value, top.Sum(nil)), "content-digest-per-the-scheme")
+	vhAssert(d.sigLoc == int64(memberEnd), "signing-block-goes-right-after-the-last-entry")
+	vhReach("digested") // vh:require digested
+}
